@@ -1,6 +1,265 @@
-//! C04 -- monitor (to be written)
-use crate::fw::ctx;
+//! C04 -- a rewrite rule is sound when its matcher accepts and a no-op when it rejects.
+//!
+//! For every diagram, backend, rule and argument tuple over vertices(d) + two ids that do
+//! not exist: (1) the matcher must not panic; (2) accepted => apply the unchecked rule on
+//! a clone: no panic, well-formed result, E(after) == E(before) (independent evaluator);
+//! (3) rejected => the checked form returns false and the clone is == the original
+//! (derived PartialEq of the backend, i.e. bit-for-bit).
+
+use crate::fw::{ctx, guarded, par_cases};
+use crate::gen::diagram::*;
+use crate::gen::prng::Rng;
+use crate::oracle::eval::EvalError;
+use crate::snap::{eval_graph, graph_json, Tens, FLOAT_TOL};
+use quizx::basic_rules as br;
+use quizx::graph::{GraphLike, VType, V};
+use serde_json::json;
+
+#[derive(Clone, Copy, Debug, PartialEq, Eq)]
+pub enum Arity {
+    One,
+    Two,
+}
+
+/// (name, arity, has a checked form)
+pub const RULES: [(&str, Arity, bool); 15] = [
+    ("pi_copy", Arity::One, true),
+    ("remove_id", Arity::One, true),
+    ("color_change", Arity::One, true),
+    ("local_comp", Arity::One, true),
+    ("remove_single", Arity::One, true),
+    ("spider_fusion", Arity::Two, true),
+    ("pivot", Arity::Two, true),
+    ("gen_pivot", Arity::Two, true),
+    ("gen_pivot_reduce", Arity::Two, false),
+    ("boundary_pivot", Arity::Two, true),
+    ("h_boundary_pivot", Arity::Two, true),
+    ("boundary_local_comp", Arity::Two, true),
+    ("gadget_fusion", Arity::Two, true),
+    ("remove_pair", Arity::Two, true),
+    ("remove_duplicate", Arity::Two, true),
+];
+
+pub fn check_rule<G: GraphLike>(rule: &str, g: &G, a: V, b: V) -> bool {
+    match rule {
+        "pi_copy" => br::check_pi_copy(g, a),
+        "remove_id" => br::check_remove_id(g, a),
+        "color_change" => br::check_color_change(g, a),
+        "local_comp" => br::check_local_comp(g, a),
+        "remove_single" => br::check_remove_single(g, a),
+        "spider_fusion" => br::check_spider_fusion(g, a, b),
+        "pivot" => br::check_pivot(g, a, b),
+        "gen_pivot" => br::check_gen_pivot(g, a, b),
+        "gen_pivot_reduce" => br::check_gen_pivot_reduce(g, a, b),
+        "boundary_pivot" => br::check_boundary_pivot(g, a, b),
+        "h_boundary_pivot" => br::check_h_boundary_pivot(g, a, b),
+        "boundary_local_comp" => br::check_boundary_local_comp(g, a, b),
+        "gadget_fusion" => br::check_gadget_fusion(g, a, b),
+        "remove_pair" => br::check_remove_pair(g, a, b),
+        "remove_duplicate" => br::check_remove_duplicate(g, a, b),
+        _ => unreachable!(),
+    }
+}
+
+pub fn apply_unchecked<G: GraphLike>(rule: &str, g: &mut G, a: V, b: V) {
+    match rule {
+        "pi_copy" => br::pi_copy_unchecked(g, a),
+        "remove_id" => br::remove_id_unchecked(g, a),
+        "color_change" => br::color_change_unchecked(g, a),
+        "local_comp" => br::local_comp_unchecked(g, a),
+        "remove_single" => br::remove_single_unchecked(g, a),
+        "spider_fusion" => br::spider_fusion_unchecked(g, a, b),
+        "pivot" => br::pivot_unchecked(g, a, b),
+        "gen_pivot" | "gen_pivot_reduce" | "boundary_pivot" | "h_boundary_pivot" => br::gen_pivot_unchecked(g, a, b),
+        "boundary_local_comp" => br::boundary_local_comp_unchecked(g, a, b),
+        "gadget_fusion" => br::gadget_fusion_unchecked(g, a, b),
+        "remove_pair" => br::remove_pair_unchecked(g, a, b),
+        "remove_duplicate" => br::remove_duplicate_unchecked(g, a, b),
+        _ => unreachable!(),
+    }
+}
+
+pub fn apply_checked<G: GraphLike>(rule: &str, g: &mut G, a: V, b: V) -> bool {
+    match rule {
+        "pi_copy" => br::pi_copy(g, a),
+        "remove_id" => br::remove_id(g, a),
+        "color_change" => br::color_change(g, a),
+        "local_comp" => br::local_comp(g, a),
+        "remove_single" => br::remove_single(g, a),
+        "spider_fusion" => br::spider_fusion(g, a, b),
+        "pivot" => br::pivot(g, a, b),
+        "gen_pivot" => br::gen_pivot(g, a, b),
+        "boundary_pivot" => br::boundary_pivot(g, a, b),
+        "h_boundary_pivot" => br::h_boundary_pivot(g, a, b),
+        "boundary_local_comp" => br::boundary_local_comp(g, a, b),
+        "gadget_fusion" => br::gadget_fusion(g, a, b),
+        "remove_pair" => br::remove_pair(g, a, b),
+        "remove_duplicate" => br::remove_duplicate(g, a, b),
+        _ => unreachable!(),
+    }
+}
+
+fn arg_class<G: GraphLike>(g: &G, a: V, b: V, ar: Arity) -> &'static str {
+    let ea = g.contains_vertex(a);
+    let eb = ar == Arity::One || g.contains_vertex(b);
+    if !ea || !eb {
+        "missing"
+    } else if ar == Arity::Two && a == b {
+        "equal"
+    } else if g.vertex_type(a) == VType::B || (ar == Arity::Two && g.vertex_type(b) == VType::B) {
+        "boundary"
+    } else {
+        "spiders"
+    }
+}
+
+/// Run all rules x all argument tuples on one diagram in one backend.
+/// Returns the number of accepted applications.
+fn check_all<G: GraphLike + PartialEq>(family: &'static str, index: u64, backend: &str, g: &G, before: &Tens, desc: &serde_json::Value) -> u64 {
+    let cx = ctx();
+    let mut args: Vec<V> = g.vertices().collect();
+    args.sort();
+    let maxid = args.iter().copied().max().map_or(0, |m| m + 1).max(g.vindex());
+    args.push(maxid);
+    args.push(1_000_000);
+    let mut accepted_total = 0u64;
+    let mut n_checks = 0u64;
+    for (rule, ar, has_checked) in RULES {
+        let mut acc = 0u64;
+        let mut rej = 0u64;
+        for &a in &args {
+            let bs: &[V] = if ar == Arity::One { &args[..1] } else { &args[..] };
+            for &b in bs {
+                let b = if ar == Arity::One { a } else { b };
+                n_checks += 1;
+                let cls = arg_class(g, a, b, ar);
+                let detail = |what: &str, extra: serde_json::Value| {
+                    json!({"what": what, "rule": rule, "args": [a, b], "arg_class": cls, "backend": backend, "diagram": desc, "graph": graph_json(g), "extra": extra})
+                };
+                let ok = match guarded(|| check_rule(rule, g, a, b)) {
+                    Ok(ok) => ok,
+                    Err(e) => {
+                        cx.violation(&format!("check_{rule}|panic|{cls}"), family, index, detail("matcher panicked", json!(e.text())));
+                        continue;
+                    }
+                };
+                if ok {
+                    acc += 1;
+                    cx.count(&format!("accept:{rule}:{cls}"), 1);
+                    let mut h = g.clone();
+                    if let Err(e) = guarded(|| apply_unchecked(rule, &mut h, a, b)) {
+                        cx.violation(&format!("{rule}|panic-after-accept|{cls}"), family, index, detail("rule panicked after matcher accepted", json!(e.text())));
+                        continue;
+                    }
+                    match eval_graph(&h) {
+                        Ok(after) => {
+                            if after.len() != before.len() || !after.same(before, FLOAT_TOL) {
+                                cx.violation(
+                                    &format!("{rule}|map-changed|{cls}"),
+                                    family,
+                                    index,
+                                    detail("accepted application changed the linear map", json!({"before": before.brief(), "after": after.brief(), "result": graph_json(&h)})),
+                                );
+                            }
+                        }
+                        Err(EvalError::IllFormed(m)) => cx.violation(
+                            &format!("{rule}|ill-formed-result|{cls}"),
+                            family,
+                            index,
+                            detail("accepted application produced an ill-formed diagram", json!({"why": m, "result": graph_json(&h)})),
+                        ),
+                        Err(EvalError::TooWide(_)) => cx.skipped(),
+                    }
+                } else {
+                    rej += 1;
+                    if has_checked {
+                        let mut h = g.clone();
+                        match guarded(|| apply_checked(rule, &mut h, a, b)) {
+                            Ok(false) => {
+                                if h != *g {
+                                    cx.violation(&format!("{rule}|rejected-but-modified|{cls}"), family, index, detail("checked form returned false but changed the graph", json!({"result": graph_json(&h)})));
+                                }
+                            }
+                            Ok(true) => cx.violation(&format!("{rule}|checked-form-disagrees|{cls}"), family, index, detail("matcher rejected but checked form returned true", json!(null))),
+                            Err(e) => cx.violation(&format!("{rule}|panic-on-reject|{cls}"), family, index, detail("checked form panicked", json!(e.text()))),
+                        }
+                    }
+                }
+            }
+        }
+        cx.count(&format!("accepted:{rule}"), acc);
+        cx.count(&format!("rejected:{rule}"), rej);
+        accepted_total += acc;
+    }
+    cx.count("check_calls", n_checks);
+    accepted_total
+}
+
+pub fn check_desc(family: &'static str, index: u64, r: &mut Rng, d: &DDesc) {
+    let cx = ctx();
+    let scr = if r.chance(0.4) { Some(r.next_u64()) } else { None };
+    let (gv, _) = d.build::<quizx::vec_graph::Graph>(scr);
+    let before = match eval_graph(&gv) {
+        Ok(t) => t,
+        Err(EvalError::TooWide(_)) => {
+            cx.skipped();
+            return;
+        }
+        Err(EvalError::IllFormed(m)) => {
+            cx.harness_error(&format!("generator produced ill-formed diagram: {m}"));
+            return;
+        }
+    };
+    let desc = d.to_json();
+    let mut acc = check_all(family, index, "vec", &gv, &before, &desc);
+    let (gh, _) = d.build::<quizx::hash_graph::Graph>(scr);
+    acc += check_all(family, index, "hash", &gh, &before, &desc);
+    cx.case(family, if acc > 0 { Some(d.hash()) } else { None });
+    cx.sample_n(4, || json!({"family": family, "index": index, "diagram": desc, "accepted_applications": acc}));
+}
 
 pub fn run() {
-    ctx().harness_error("C04 monitor not implemented yet");
+    let c = ctx();
+    let t = c.tier;
+    c.set_rule("cases = diagrams; for each, every rule x every argument tuple over its vertices plus two non-existent ids x 2 backends is checked (counter check_calls); non-trivial = at least one matcher accepted; distinct = distinct diagram descriptions");
+    c.assume("independent evaluator O2 / ring O1 correct (self-tested, cross-checked)");
+    c.assume("'bit-for-bit unchanged' is decided by the backend's derived PartialEq (all fields incl. holes and counters)");
+    let (ms, n_rand) = t.pick((6usize, 1500usize), (9usize, 60_000usize));
+    par_cases("arbitrary-exact", n_rand, move |r, i| {
+        let d = gen_random(r, &DiagParams { max_spiders: ms, max_bnd: 3, pool: PhasePool::CliffordHeavy, graph_like: false, bare_wires: true, var_prob: 0.0 });
+        check_desc("arbitrary-exact", i, r, &d);
+    });
+    par_cases("graph-like", n_rand, move |r, i| {
+        let d = gen_random(r, &DiagParams { max_spiders: ms + 1, max_bnd: 3, pool: PhasePool::CliffordHeavy, graph_like: true, bare_wires: false, var_prob: 0.0 });
+        check_desc("graph-like", i, r, &d);
+    });
+    par_cases("graph-like-float", n_rand / 3, move |r, i| {
+        let d = gen_random(r, &DiagParams { max_spiders: ms, max_bnd: 3, pool: PhasePool::Float, graph_like: true, bare_wires: false, var_prob: 0.0 });
+        check_desc("graph-like-float", i, r, &d);
+    });
+    par_cases("gadget-rich", n_rand, move |r, i| {
+        let d = gen_gadget_rich(r, 4, PhasePool::CliffordHeavy, 0.0);
+        check_desc("gadget-rich", i, r, &d);
+    });
+    let max_ns = t.pick(2usize, 3usize);
+    let mut space_total = 0u64;
+    let mut completed = true;
+    for ns in 0..=max_ns {
+        let space = tiny_space(ns);
+        space_total += space;
+        let chunk = 128u64;
+        let nchunks = ((space + chunk - 1) / chunk) as usize;
+        let fam: &'static str = ["exhaustive-tiny-0", "exhaustive-tiny-1", "exhaustive-tiny-2", "exhaustive-tiny-3"][ns];
+        par_cases(fam, nchunks, move |r, ci| {
+            for k in 0..chunk {
+                if let Some(d) = tiny_diagram(ns, ci * chunk + k) {
+                    check_desc(fam, ci, r, &d);
+                }
+            }
+        });
+        if c.out_of_time() {
+            completed = false;
+        }
+    }
+    c.extra("exhaustive_tiny", json!({"max_spiders": max_ns, "space": space_total, "completed": completed}));
 }
